@@ -39,6 +39,9 @@ func (i ItemCollection) IRIs() IRIs {
 
 	iris := make(IRIs, 0, len(i))
 	for _, it := range i {
+		if IsNil(it) {
+			continue
+		}
 		iris = append(iris, it.GetLink())
 	}
 	return iris
@@ -155,7 +158,7 @@ func ItemCollectionDeduplication(recCols ...*ItemCollection) ItemCollection {
 		toRemove := make([]int, 0)
 		for i, cur := range *recCol {
 			save := true
-			if cur == nil {
+			if IsNil(cur) {
 				continue
 			}
 			var testIt IRI
